@@ -884,8 +884,20 @@ def eval_gparse(ctx, case):
         big = {n: guess and nres[n][0] > 3 for n in complete}
 
         # ---- the call under test
+        # the restraints of a species handed over as a ONE-SHOT iterable (zip(start_ids, end_ids), a generator): any
+        # iterable of pairs is a list of pairs to the validator, which goes through it once (seed C10-14: a format pass
+        # followed by a second pass over the same, by then exhausted, object)
+        call_restr = opts["restr"]
+        if call_restr is not None:
+            call_restr = {}
+            for n_, v_ in opts["restr"].items():
+                oneshot = (isinstance(v_, list) and len(v_) % 3 == 1 and
+                           all(isinstance(q, (tuple, list)) and len(q) == 2 for q in v_))
+                if oneshot:
+                    ctx.count("gparse:restraints-as-one-shot-iterator")
+                call_restr[n_] = iter(list(v_)) if oneshot else v_
         try:
-            got = ("ok", norm_parsed(man.parse_restrictions(opts["restr"], guess_proteins=guess)))
+            got = ("ok", norm_parsed(man.parse_restrictions(call_restr, guess_proteins=guess)))
         except Exception as e:
             got = ("err", errname(e))
         # the flag-free call on the same input (reference for "species with <= 3 residues are routed as without the flag")
